@@ -98,6 +98,18 @@ func (vc *VC) doCall(fr *frame, st *State, instr ssa.Instruction, c *ssa.CallCom
 		if in := vc.E.intrinsic(key); in != nil {
 			return in.exec(vc, fr, st, c, args, rt, pos)
 		}
+		// role contracts: an interface value loaded from a struct field F uses "(Iface_F).Method" when present
+		if rk := roleKey(key, c.Value); rk != "" && vc.E.DB.Contracts[rk] != nil {
+			key = rk
+		} else if fvv, ok := c.Value.(*ssa.FreeVar); ok {
+			for i, f := range fr.fn.FreeVars {
+				if f == fvv && i < len(fr.fvRoles) && fr.fvRoles[i] != "" {
+					if rk := roleKeyField(key, fr.fvRoles[i]); vc.E.DB.Contracts[rk] != nil {
+						key = rk
+					}
+				}
+			}
+		}
 		if ct := vc.E.DB.Contracts[key]; ct != nil {
 			sig := c.Method.Type().(*types.Signature)
 			return vc.callByContract(fr, st, ct, nil, sig, c.Value.Type(), args, rt, pos)
@@ -114,9 +126,13 @@ func (vc *VC) doCall(fr *frame, st *State, instr ssa.Instruction, c *ssa.CallCom
 	var freeVars []Val
 	if callee == nil {
 		fv := vc.operand(fr, st, c.Value)
+		if fv.Fn != nil && len(fv.Fn.Alts) > 0 {
+			return vc.callAlternatives(fr, st, fv.Fn.Alts, args, rt, pos)
+		}
 		if fv.Fn != nil {
 			callee = fv.Fn.Fn
 			freeVars = fv.Fn.Bindings
+			vc.pendingRoles = fv.Fn.Roles
 		} else if key, recv, recvT, ok := vc.funcFieldKey(fr, st, c.Value); ok && vc.E.DB.Contracts[key] != nil {
 			sig := c.Value.Type().Underlying().(*types.Signature)
 			return vc.callByContract(fr, st, vc.E.DB.Contracts[key], nil, sig, recvT, append([]Val{recv}, args...), rt, pos)
@@ -128,6 +144,7 @@ func (vc *VC) doCall(fr *frame, st *State, instr ssa.Instruction, c *ssa.CallCom
 		fv := vc.operand(fr, st, mc)
 		if fv.Fn != nil {
 			freeVars = fv.Fn.Bindings
+			vc.pendingRoles = fv.Fn.Roles
 		}
 	}
 	if o := callee.Origin(); o != nil {
@@ -632,11 +649,46 @@ func (vc *VC) callByContract(fr *frame, st *State, ct *Contract, fn *ssa.Functio
 		vc.oblige(st, "pre", site+"."+fmt.Sprint(cl.Idx), "precondition of "+short+": "+cl.Text, g, cl.Tags, pos, false)
 		vc.assume(st, g)
 	}
+	for _, cl := range ct.ObjInv {
+		vc.assume(st, pre.bool(pre.eval(cl.Expr), cl.Expr))
+	}
 	old := st.clone()
 	// frame
 	locs := vc.evalModifies(pre, ct)
 	what := "call$" + shortLabel(short) + fmt.Sprint(n)
 	vc.havocLocs(st, locs, what)
+	if len(ct.Preserves) > 0 {
+		// whole maps named by the preserves clause keep their pre-call value (fields of fresh objects aside:
+		// a preserved map may gain entries for objects the callee allocated, which no old reference reaches)
+		for _, cl := range ct.Preserves {
+			for _, l := range vc.evalLoc(pre, cl.Expr, ct) {
+				if l.all {
+					continue
+				}
+				if oldT, ok := old.heap[l.key]; ok {
+					if len(l.idx) == 0 {
+						st.heap[l.key] = oldT
+					} else if cur, ok2 := st.heap[l.key]; ok2 {
+						st.heap[l.key] = vc.P.Store(cur, l.idx[0], vc.P.Select(oldT, l.idx[0]))
+					}
+				} else if srt, ok := vc.heapSort[l.key]; ok {
+					if len(l.idx) == 0 {
+						st.heap[l.key] = vc.heapDefault(old, l.key, srt)
+					}
+				} else {
+					// never touched before the call and preserved by it: the entry value stays visible
+					var keep []string
+					for _, u := range st.untouched {
+						if u != l.key {
+							keep = append(keep, u)
+						}
+					}
+					st.untouched = keep
+					st.preserved = appendUnique(st.preserved, l.key)
+				}
+			}
+		}
+	}
 	for _, a := range args {
 		if a.K == VAddr && a.A.K == ACell && !ct.Pure {
 			// contracts cannot describe writes through pointers to caller locals: treat as possibly written
@@ -645,7 +697,8 @@ func (vc *VC) callByContract(fr *frame, st *State, ct *Contract, fn *ssa.Functio
 			st.cells[k] = vc.freshVal(st, t, a.A.Cell.Comment+"@"+what)
 		}
 	}
-	if len(ct.Allocates) > 0 || !ct.Pure {
+	{
+		// the callee may allocate (pure functions too: results may be fresh objects)
 		a := vc.allocCounter(st)
 		na := p.Fresh("$A@"+what, SInt)
 		vc.assume(st, p.Le(a, na))
@@ -657,6 +710,9 @@ func (vc *VC) callByContract(fr *frame, st *State, ct *Contract, fn *ssa.Functio
 	post := vc.contractCtx(st, old, ct, fn, sig, recvT, args)
 	bindResults(post, res, rt)
 	for _, cl := range ct.Ensures {
+		vc.assume(st, post.bool(post.eval(cl.Expr), cl.Expr))
+	}
+	for _, cl := range ct.ObjInv {
 		vc.assume(st, post.bool(post.eval(cl.Expr), cl.Expr))
 	}
 	vc.usedContracts[ct.Key] = true
@@ -724,12 +780,25 @@ func (e *Engine) resolveTypeName(pkgPath, name string) (types.Type, bool) {
 			}
 		}
 	}
-	if pkg == nil {
-		return nil, false
+	var tn *types.TypeName
+	ok := false
+	if pkg != nil {
+		tn, ok = pkg.Scope().Lookup(name).(*types.TypeName)
 	}
-	tn, ok := pkg.Scope().Lookup(name).(*types.TypeName)
 	if !ok {
-		return nil, false
+		// an unqualified name that is unique among the repository's packages
+		var found []*types.TypeName
+		for _, p := range e.Prog.AllPackages() {
+			if e.inRepo(p.Pkg) {
+				if t, isT := p.Pkg.Scope().Lookup(name).(*types.TypeName); isT {
+					found = append(found, t)
+				}
+			}
+		}
+		if len(found) != 1 {
+			return nil, false
+		}
+		tn = found[0]
 	}
 	if ptr {
 		return types.NewPointer(tn.Type()), true
@@ -869,6 +938,33 @@ func (vc *VC) evalLoc(c *evalCtx, e *Expr, ct *Contract) []loc {
 				addKeys("", t, nil)
 				return out
 			}
+		case "allmaps", "allelems":
+			// allmaps(T.f) / allelems(T.f): every map object (resp. every backing array) of the type of field f
+			if len(e.Args) == 1 && e.Args[0].Kind == "field" {
+				if t, ok := c.resolveType(e.Args[0].Args[0]); ok {
+					if s, isStruct := structOf(t); isStruct {
+						for i := 0; i < s.NumFields(); i++ {
+							if s.Field(i).Name() != e.Args[0].Name {
+								continue
+							}
+							switch ft := s.Field(i).Type().Underlying().(type) {
+							case *types.Map:
+								noteMapType(ft)
+								return []loc{{key: mapKey(ft) + "#dom"}, {key: mapKey(ft) + "#val"}}
+							case *types.Slice:
+								addKeys(elemMapKey(ft.Elem()), ft.Elem(), nil)
+								return out
+							}
+						}
+					}
+				}
+			}
+		case "mem":
+			// mem(T): the pointees of all pointers to the non-struct type T (e.g. mem(uint256.Int))
+			if t, ok := c.resolveType(e.Args[0]); ok {
+				addKeys(memMapKey(t), t, nil)
+				return out
+			}
 		}
 	}
 	vc.specError(fmt.Sprintf("%s: cannot interpret modifies target %s", ct.Key, e))
@@ -986,4 +1082,75 @@ func (vc *VC) guessKeySort(key string) (Sort, bool) {
 		return leaf, true
 	}
 	return "", false
+}
+
+// roleKey derives the role contract key for an interface method called on a value loaded from a field.
+func roleKey(key string, recv ssa.Value) string {
+	f := roleField(recv)
+	if f == "" {
+		return ""
+	}
+	return roleKeyField(key, f)
+}
+
+func roleKeyField(key, field string) string {
+	i := strings.LastIndex(key, ").")
+	if i < 0 {
+		return ""
+	}
+	return key[:i] + "_" + field + key[i:]
+}
+
+// roleField: the name of the struct field an interface value was loaded from ("" if it was not).
+func roleField(recv ssa.Value) string {
+	u, ok := recv.(*ssa.UnOp)
+	if !ok || u.Op != token.MUL {
+		return ""
+	}
+	fa, ok := u.X.(*ssa.FieldAddr)
+	if !ok {
+		return ""
+	}
+	s, ok := structOf(fa.X.Type().Underlying().(*types.Pointer).Elem())
+	if !ok {
+		return ""
+	}
+	return s.Field(fa.Field).Name()
+}
+
+// callAlternatives executes a call through a function value that is one of several known closures:
+// a case split, each alternative inlined under its selecting condition, then the states are joined.
+func (vc *VC) callAlternatives(fr *frame, st *State, alts []FuncAlt, args []Val, rt types.Type, pos token.Pos) Val {
+	p := vc.P
+	var sts []*State
+	var results []Val
+	var conds []*Term
+	for _, a := range alts {
+		s := st.clone()
+		s.pc = p.And(st.pc, a.Cond)
+		if s.pc.IsFalse() {
+			continue
+		}
+		callee := a.F.Fn
+		if o := callee.Origin(); o != nil && len(callee.Blocks) == 0 {
+			callee = o
+		}
+		vc.pendingRoles = a.F.Roles
+		r := vc.inlineCall(fr, s, callee, args, a.F.Bindings, rt, pos)
+		if s.pc.IsFalse() {
+			continue
+		}
+		sts = append(sts, s)
+		results = append(results, r)
+		conds = append(conds, s.pc)
+	}
+	if len(sts) == 0 {
+		st.pc = p.False()
+		return vc.zeroValOrTuple(st, rt)
+	}
+	merged := vc.mergeStates(sts, "funcvalue call")
+	defers := st.defers
+	*st = *merged
+	st.defers = defers
+	return vc.mergeVal(conds, results, "funcvalue result")
 }
